@@ -163,6 +163,29 @@ static void mixedHistory(Gen& G, int tier, int minSteps, int maxSteps, int churn
         else if (r < 18 + churnPct) G.emitChurn(all);
         else G.emitOp(ops, all);
     }
+    // sometimes: reorder one forest's variables and keep working in it (the rules, the counts and the
+    // caches must survive a non-default variable order; operations across different orders are rejected
+    // by the library, so the work after the reordering stays inside that forest)
+    const bool reorderable = (k.label == 'M') || (!k.rel && k.label == 'P');
+    if (reorderable && R.chance(18)) {
+        const int f = pool[R.below(uint32_t(pool.size()))];
+        G.P.forests[size_t(f)].reorder = int(R.below(8));
+        G.P.forests[size_t(f)].swap = 0;
+        const int K = int(G.P.domains[size_t(d)].size());
+        std::vector<int> perm;
+        for (int v = 1; v <= K; v++) perm.push_back(v);
+        for (int i = K; i > 1; i--) std::swap(perm[size_t(i - 1)], perm[R.below(uint32_t(i))]);
+        Step s{"reorder", Gen::num(f)};
+        for (int v : perm) s.push_back(Gen::num(v));
+        G.emit(s);
+        std::vector<std::string> inops;
+        if (k.range == 'B') inops = SETOPS; else inops = cat({ARITH, {"MAXIMUM", "MINIMUM"}});
+        for (int i = R.range(3, 10); i > 0; i--) {
+            if (R.chance(35)) G.genFunction(G.freeSlot(), f, 12);
+            else if (R.chance(20)) G.emitChurn({f});
+            else G.emitOp(inops, {f});
+        }
+    }
 }
 
 Program genC02(Rand& R, int tier)
